@@ -9,6 +9,7 @@ import MotoModel.Spec.Dos
 import MotoModel.Model.Basic
 import MotoModel.Spec.BasicRef
 import MotoModel.Model.Argparse
+import MotoModel.Model.ConvCli
 open Moto
 
 def hexVal (c : Char) : Nat :=
@@ -65,6 +66,19 @@ def lookupWorld (w : List (Str × Option Bytes)) (p : Str) : Option Bytes :=
   | some (_, c) => c
   | none => none
 
+def tworldOf : List String → List (Str × Option Str)
+  | p :: c :: rest => (uncp p, if c == "missing" then none else some (uncp c)) :: tworldOf rest
+  | _ => []
+
+def lookupText (w : List (Str × Option Str)) (p : Str) : Option Str :=
+  match w.find? (fun e => e.1 == p) with
+  | some (_, c) => c
+  | none => none
+
+/-- `status|writes` of a converter run -/
+def showConv (o : Conv.Out) : String :=
+  (match o.err with | none => "ok0" | some e => errName e) ++ "|" ++ ";".intercalate (o.writes.map fun (p, b) => cp p ++ ">" ++ hex b)
+
 def sfilesOf : List String → List Spec.K7.SFile
   | n :: e :: k :: m :: c :: rest => ⟨uncp n, uncp e, k.toNat!, m.toNat!, unhex c⟩ :: sfilesOf rest
   | _ => []
@@ -117,6 +131,17 @@ def handle (args : List String) : String :=
        if argv.any (fun a => a.any (fun c => c < 32 || c > 126)) || !Argparse.wellShaped t then "unmodelled"
        else showArgOut (if level == "known" then Argparse.parseKnown t argv else Argparse.cliParse t argv))
   | ["ping"] => "pong"
+  | "conv.lst2bas" :: n :: rest =>
+      let srcs := (rest.take n.toNat!).map uncp
+      let w := tworldOf (rest.drop n.toNat!)
+      -- outside the modelled domain: source names beyond ASCII (`upper()` is Python's), a listing beyond ASCII given to the
+      -- tokenizing conversion (C13 / C14 are about ASCII listings)
+      if srcs.any (fun s => s.any (· ≥ 128)) || srcs.any (fun s => match lookupText w s with | some t => t.any (· ≥ 128) | none => false)
+      then "unmodelled" else showConv (Conv.lst2basRun (lookupText w) srcs)
+  | "conv.bas2lst" :: dos :: n :: rest =>
+      let srcs := (rest.take n.toNat!).map uncp
+      let w := worldOf (rest.drop n.toNat!)
+      if srcs.any (fun s => s.any (· ≥ 128)) then "unmodelled" else showConv (Conv.bas2lstRun (lookupWorld w) (dos == "1") srcs)
   | ["names.tape", src] =>
       let t := Spec.Names.tapeSource (uncp src)
       " ".intercalate [cp t.name, cp t.ext, toString t.kind, toString t.mode, cp t.path]
